@@ -55,7 +55,7 @@ def gen_cases(tier, seed):
         if impl == "full":
             uq = int(rng.integers(1, 4))
         out.append({"cls": impl + ":" + band, "impl": impl, "N": N, "dt": dt, "offset": float(rng.uniform(-1e-6, 1e-6)),
-                    "band": [float(lo), float(hi)], "amp": str(rng.choice(["constant", "constant", "callable", "scalar-only", "default"])),
+                    "band": [float(lo), float(hi)], "amp": str(rng.choice(["constant", "constant", "callable", "scalar-only", "default", "sign-changing", "negative-constant"])),
                     "uq": uq, "rms_mode": str(rng.choice(["rms", "rms", "TR", "rms", "TR", "zero", "zero+TR"]))})
     return out
 
@@ -69,6 +69,10 @@ def build(case, t, sg):
         kw["f_amplitude"] = 1.0
     elif case["amp"] == "callable":
         kw["f_amplitude"] = lambda f: 1.0 + 0.5 * np.cos(np.asarray(f) / fny * 7)
+    elif case["amp"] == "sign-changing":
+        kw["f_amplitude"] = lambda f: np.cos(np.asarray(f) / fny * 7) + 0.2          # a weight that goes negative inside the band: the sign belongs to the published amplitude
+    elif case["amp"] == "negative-constant":
+        kw["f_amplitude"] = -1.5
     elif case["amp"] == "scalar-only":
         kw["f_amplitude"] = lambda f: 1.0 + 0.5 * float(np.cos(float(f) / fny * 7))
     if case["rms_mode"] == "rms":
